@@ -41,7 +41,9 @@ MainBases ==
   UNION {{[msgs |-> s.msgs, be |-> s.be, left |-> su.left, via |-> su.via,
            fdpos |-> fp, tail |-> "none", eof |-> FALSE, fam |-> "main"]
           : su \in {x \in Setups(Pos(Len(s.msgs))) : "unk1" \notin {s.msgs[j] : j \in 1..Len(s.msgs)} \/ x.left = <<0, "0">>},
-            fp \in {"first", "body"}}
+            \* where the fds travel: all with the first byte, all with the first body byte, or (messages with two fds) split:
+            \* the first with the first byte, the second with the first body byte - so that a cut in between separates them
+            fp \in {"first", "body"} \cup (IF "sig2" \in {s.msgs[j] : j \in 1..Len(s.msgs)} THEN {"split"} ELSE {})}
          : s \in STREAMS}
 
 \* size-limit family: zero or one valid message, then a fixed header declaring too much (or exactly the
